@@ -168,6 +168,11 @@ def random_case(rng, j):
     o["minSeverity"] = rng.choice([0, 0, 0, 7.0])
     o["ignoreDev"] = rng.random() < 0.2
     sc = {"eco": eco, "universe": uni, "manifest": man, "vulns": vulns, "opts": o}
+    if eco == "Maven" and rng.random() < 0.3:
+        sc["layout"] = rng.choice(["profile-mgmt", "profile-mgmt-active", "profile-props"])
+    if eco == "npm" and rng.random() < 0.25:
+        m = rng.choice(man)
+        man.append({"name": m["name"] + "-legacy", "req": "npm:%s@%s" % (m["name"], m["req"]), "group": rng.choice(["", "", "dev"])})
     return {"fam": "Remediation", "cfg": "random", "scenario": sc, "devs": [], "model": None, "id": vf.case_id(sc)}
 
 
@@ -249,6 +254,66 @@ def generate(ck):
     return cases
 
 
+def overlay(c, seed):
+    """manifest-shape and option variants the model is neutral to, chosen per scenario from the seed:
+    Maven/override: pom layouts with a <profile> (own dependencyManagement, inactive or activeByDefault; properties only),
+    several applied patches (maxUpgrades 0 / 2); npm/relax: the first dependency declared a second time through an
+    npm: alias with the same requirement (both declarations need the change), possibly in devDependencies"""
+    sc = c["scenario"]
+    o = sc["opts"]
+    rng = random.Random("%s/%d" % (c["id"], seed))
+    r = rng.random()
+    if o["mode"] == "fix" and o["strategy"] == "override":
+        if r < 0.45:
+            sc["layout"] = rng.choice(["profile-mgmt", "profile-mgmt-active", "profile-props", "profile-mgmt"])
+        if rng.random() < 0.3 and o["maxUpgrades"] == 1:
+            o["maxUpgrades"] = rng.choice([0, 2])
+    elif o["mode"] == "fix" and o["strategy"] == "relax":
+        if r < 0.35 and sc["manifest"] and not sc["manifest"][0]["req"].startswith("npm:"):
+            m = sc["manifest"][0]
+            sc["manifest"].append({"name": m["name"] + "-legacy", "req": "npm:%s@%s" % (m["name"], m["req"]),
+                                   "group": rng.choice(["", "", "dev"]) if not o["devDeps"] or rng.random() < 0.3 else ""})
+        if rng.random() < 0.2 and o["maxUpgrades"] == 1:
+            o["maxUpgrades"] = rng.choice([0, 2])
+    elif o["mode"] == "update" and r < 0.3:
+        sc["layout"] = rng.choice(["profile-mgmt", "profile-mgmt-active", "profile-props"])
+    c["id"] = vf.case_id(sc)
+    return c
+
+
+def designed_cases():
+    """hand-shaped universes for multi-patch interplay (several applied patches that share a fixed vulnerability):
+    foo@lo -> bar@lo, foo@hi -> bar@hi; bar's vulnerabilities are fixed below bar@hi; foo's own vulnerability is fixed
+    at foo@hi, which introduces n new vulnerabilities (so that 'upgrade foo' ranks after 'override bar')."""
+    out = []
+    for eco, strat in (("Maven", "override"), ("npm", "relax")):
+        nm = (lambda p: "pkg:" + p) if eco == "Maven" else (lambda p: p)
+        fam = "maven-override" if eco == "Maven" else "npm-relax"
+        for nbar in (1, 2):
+            for nnew in (0, 1, 2, 3):
+                for maxup in (0, 1, 2):
+                    for lvl in ({}, {"": "major", nm("bar"): "minor"}):
+                        for layout in (("", "profile-mgmt") if eco == "Maven" else ("",)):
+                            dep = (lambda v: v) if eco == "Maven" else (lambda v: "^" + v)
+                            uni = [{"name": nm("foo"), "versions": [{"v": "1.0.0", "deps": [[nm("bar"), dep("1.0.0")]], "latest": False},
+                                                                    {"v": "3.0.0", "deps": [[nm("bar"), dep("3.0.0")]], "latest": True}]},
+                                   {"name": nm("bar"), "versions": [{"v": v, "deps": [], "latest": v == "3.0.0"} for v in ("1.0.0", "1.1.0", "2.0.0", "3.0.0")]}]
+                            vulns = [{"id": "V1", "pkg": nm("foo"), "events": [["introduced", "0"], ["fixed", "3.0.0"]], "sev": "high"}]
+                            for i in range(nnew):
+                                vulns.append({"id": "V%d" % (len(vulns) + 1), "pkg": nm("foo"), "events": [["introduced", "3.0.0"]], "sev": "high"})
+                            for i in range(nbar):
+                                vulns.append({"id": "V%d" % (len(vulns) + 1), "pkg": nm("bar"), "events": [["introduced", "0"], ["fixed", "2.0.0" if i == 0 else "1.1.0"]], "sev": "high"})
+                            o = base_opts(fam)
+                            o["maxUpgrades"] = maxup
+                            o["levels"] = dict(lvl)
+                            man = [{"name": nm("foo"), "req": "1.0.0", "group": ""}]
+                            sc = {"eco": eco, "universe": uni, "manifest": man, "vulns": vulns, "opts": o}
+                            if layout:
+                                sc["layout"] = layout
+                            out.append({"fam": "Remediation", "cfg": "designed", "scenario": sc, "devs": [], "model": None, "id": vf.case_id(sc)})
+    return out
+
+
 def select(ck, cases):
     """seeded stratified sample per cfg: scenarios where the model predicts a patch first, a slice of the rest"""
     rng = random.Random(ck.seed * 1000003 + 11)
@@ -268,6 +333,7 @@ def select(ck, cases):
     seen = set()
     uniq = []
     for c in out:
+        c = overlay(c, ck.seed)
         if c["id"] not in seen:
             seen.add(c["id"])
             uniq.append(c)
@@ -296,6 +362,7 @@ def run(prop):
         cases = select(ck, allc)
         rng = random.Random(ck.seed * 7919 + 5)
         cases += [random_case(rng, j) for j in range(12000 if ck.thorough() else 1500)]
+        cases += designed_cases()
     outs = vf.run_harness("vremfix", "fix", cases, timeout=3000)
     if len(outs) != len(cases):
         raise vf.NotAVerdict("harness returned %d of %d cases" % (len(outs), len(cases)))
